@@ -406,6 +406,48 @@ def run(facts, res):
         res.instance("P4", "eq reads %s, hash reads %s, struct has %s" % (sorted(fe), sorted(fh), sorted(allf)), eqb.loc())
         if fe != fh or fe != allf:
             res.violation("P4", "eq-hash-fields", "Revision::eq reads %s, Revision::hash reads %s, the struct has %s" % (sorted(fe), sorted(fh), sorted(allf)), eqb.loc())
+        # P4b: eq answers true only when *every* field is equal, and hash feeds every field on every path: an equality that skips a
+        # field under some condition (deleted revisions compared without their tail) identifies distinct revisions - the second one to
+        # arrive is dropped by the insert-if-absent of the revision map, and which one that is depends on the order of arrival
+        from ..conds import closure_result_lits
+        from ..cfg import cfg_of as _cfg_of
+        tl = closure_result_lits(eqb, facts, True)
+
+        def eq_on(l, f):
+            t_ = l.term
+            if l.kind == "cmp" and ((t_[1] == "Ne" and l.truth is False) or (t_[1] == "Eq" and l.truth is True)):
+                ops_ = (t_[2], t_[3])
+            elif l.kind == "call" and callee_name(t_) in ("eq", "ne") and len(t_[2]) == 2 and l.truth is (callee_name(t_) == "eq"):
+                ops_ = (t_[2][0], t_[2][1])
+            else:
+                return False
+            sides = [{(x[1][1] if x[1][0] == "param" else None) for x in walk(o) if x[0] == "field" and x[2] == f and
+                      (lambda r: r[0] == "param")(_root(x[1]))} for o in ops_]
+            return all(sides)
+        def _root(t_):
+            hops = 0
+            while hops < 30 and t_[0] in ("ref", "deref", "cast", "field", "var"):
+                t_ = t_[3] if t_[0] == "var" else t_[1]
+                hops += 1
+            return t_
+        missing = sorted(f for f in allf if not any(eq_on(l, f) for l in tl))
+        res.instance("P4", "eq answers true only under equality of every field (fields without an equality literal on the true result: %s)" % missing, eqb.loc())
+        if missing or not tl:
+            res.violation("P4", "eq-true-without-comparing:%s" % ",".join(missing or ["?"]),
+                          "Revision::eq can answer true without having compared %s: two revisions that differ there are one key of the revision map" % (missing or "its fields"), eqb.loc())
+        hcfg = _cfg_of(hb)
+        rets = [blk.idx for blk in hb.blocks if not blk.cleanup and blk.term.kind == "return"]
+        for f in sorted(allf):
+            fb = []
+            for bi, t in hb.calls():
+                if t.callee is not None and t.callee.name in ("hash", "hash_slice", "write", "write_u32", "write_str", "write_u64", "write_usize") and t.args:
+                    a0 = arg_term(hb, t, 0, 12)
+                    if any(x[0] == "field" and x[2] == f for x in walk(a0)):
+                        fb.append(bi)
+            skip = (not fb) or (0 not in fb and any(hcfg.reaches(0, r_, avoid=set(fb)) for r_ in rets))
+            res.instance("P4", "hash feeds the field %s on every path: %s" % (f, not skip), hb.loc())
+            if skip:
+                res.violation("P4", "hash-field-conditional:%s" % f, "Revision::hash can return without feeding the field %s" % f, hb.loc())
     else:
         res.floor("P4", "PartialEq / Hash for Revision", 0, 2)
     cmpb = facts.body("<revision::Revision as std::cmp::Ord>::cmp")
